@@ -1059,6 +1059,49 @@ def _fstring_delimiter_provenance(ctx):
     return out
 
 
+def _dict_display(mod, v):
+    """A dict display, or the display that `{K(a): V(b) for a, b in TABLE}` spells when TABLE is a module-level tuple /
+    list of literal pairs (the comprehension unrolled; `Enum[<name>]` written as `Enum.<name>`)."""
+    import copy as _copy
+    if not (isinstance(v, ast.DictComp) and len(v.generators) == 1 and not v.generators[0].ifs):
+        return v
+    gen = v.generators[0]
+    table = None
+    if isinstance(gen.iter, ast.Name):
+        vals = [st.value for st in mod.tree.body if isinstance(st, ast.Assign)
+                and any(isinstance(t, ast.Name) and t.id == gen.iter.id for t in st.targets)]
+        if len(vals) == 1:
+            table = vals[0]
+    elif isinstance(gen.iter, (ast.Tuple, ast.List)):
+        table = gen.iter
+    if not isinstance(table, (ast.Tuple, ast.List)):
+        return v
+    names = [e.id for e in gen.target.elts] if isinstance(gen.target, ast.Tuple) and all(isinstance(e, ast.Name) for e in gen.target.elts) \
+        else [gen.target.id] if isinstance(gen.target, ast.Name) else None
+    if names is None:
+        return v
+    keys, values = [], []
+    for row in table.elts:
+        cells = row.elts if isinstance(row, (ast.Tuple, ast.List)) else [row]
+        if len(cells) != len(names):
+            return v
+        env = dict(zip(names, cells))
+
+        class Sub(ast.NodeTransformer):
+            def visit_Name(self, n):
+                return _copy.deepcopy(env[n.id]) if n.id in env else n
+
+            def visit_Subscript(self, n):
+                self.generic_visit(n)
+                if isinstance(n.slice, ast.Constant) and isinstance(n.slice.value, str) and n.slice.value.isidentifier() \
+                        and isinstance(n.value, ast.Name) and n.value.id[:1].isupper():
+                    return ast.Attribute(value=n.value, attr=n.slice.value, ctx=ast.Load())
+                return n
+        keys.append(ast.fix_missing_locations(Sub().visit(_copy.deepcopy(v.key))))
+        values.append(ast.fix_missing_locations(Sub().visit(_copy.deepcopy(v.value))))
+    return ast.copy_location(ast.Dict(keys=keys, values=values), v)
+
+
 def tree_8(ctx, rep):
     rep.rule('TREE-8', 'leaf classes with the single-line end_pos shortcut only receive token kinds whose value '
                        'language contains no line break')
@@ -1067,7 +1110,7 @@ def tree_8(ctx, rep):
     prog = ctx.prog
     fast = prog.cls(PYTREE, '_LeafWithoutNewlines')
     parser = prog.cls(PYPARSER, 'Parser')
-    leaf_map = parser.attrs.get('_leaf_map')
+    leaf_map = _dict_display(parser.mod, parser.attrs.get('_leaf_map'))
     if not isinstance(leaf_map, ast.Dict):
         raise AnalysisError('anchor vanished: Parser._leaf_map')
     env = ctx.token_collection((3, 8))
